@@ -42,7 +42,8 @@ impl RQSC {
 
         let mut header = TableHeader {
             signature: *b"RQSC",
-            length: (TableHeader::len() as u32).into(),
+            // header plus the controller count
+            length: (TableHeader::len() as u32 + 4).into(),
             revision: 1,
             checksum: 0,
             oem_id,
